@@ -35,6 +35,11 @@ CHECKS = {
    design_ref='DESIGN.md 6/C08',
    note='Trusted: the two gRPC transport rules (an uncaught servicer exception arrives as UNKNOWN; context.abort(code) arrives as that code), loopback only; M1/M4 hand-written. Error classes compared: FAILED_PRECONDITION, NOT_FOUND, ALREADY_EXISTS, other. Two genuine defects repaired by fix: commits (handle_exception aborts; lookup errors mapped + get_trial translation).',
    technique='Lean 4 theorem proving over a transport/client model + three-deployment differential correspondence check'),
+ 'C05': dict(
+   text='Lean 4 proofs over the crash model M3 (Model/Crash.lean: every SQL datastore write call is one transaction, a crash keeps a prefix of the RPC\'s write calls): single-resource RPCs are all-or-nothing; the write list of SuggestTrials replays exactly to M1\'s result (acknowledged = durable); after ANY prefix of SuggestTrials\' writes the trials are a legal evolution of the pre-crash trials (unique increasing ids, legal states, completed trials untouched) and the datastore invariant holds, so C01/C02 apply from the recovered state; any worker without an unfinished operation gets a finished operation after restart and an ACTIVE trial can be completed; kernel-checked witness of the one exception (the crashed worker\'s own abandoned operation = known finding). Tie on every run: SQL statement/commit tracing shows every datastore call is a single transaction, and process death (os._exit in a forked child) is injected before EVERY SQL event of each RPC kind after several prefixes on a SQLite file; the restarted server\'s snapshot must be one of the model\'s crash states, is judged by the Lean predicates, and a continuation (suggest + complete) is run.',
+   design_ref='DESIGN.md 6/C05',
+   note='Trusted: SQLite rollback-journal atomicity, fsync, file system (crash = process death, not power loss); SQLAlchemy autobegin/commit semantics as traced; M1/M3 hand-written. Early-stopping records left ACTIVE by a crash are outside the property\'s continuation clause (advisory answer).',
+   technique='Lean 4 theorem proving (prefix-closed invariant over the write log) + exhaustive crash-point injection on the real SQLite-backed service'),
 }
 
 NOT_YET = 'not yet built in this session (machinery in progress; see DESIGN.md section 7 build order)'
